@@ -322,7 +322,7 @@ func RoutingReplay(args []string) {
 				c.conn.WriteMessage(websocket.TextMessage, raw)
 			}
 			// settle: wait until every connected client's inbox has the expected length, then compare
-			deadline := time.Now().Add(2 * time.Second)
+			deadline := time.Now().Add(10 * time.Second) // ends as soon as every expected message is there
 			for {
 				done := true
 				for name, c := range clients {
@@ -710,20 +710,23 @@ func LimitsCheck(args []string) {
 				host.conn.Close()
 			}
 		}})
-	cases = append(cases, limitsCase{Name: "session-timeout expiry", Flags: append(off(), "--session-timeout", "600ms"),
+	cases = append(cases, limitsCase{Name: "session-timeout expiry", Flags: append(off(), "--session-timeout", "1500ms"),
 		Run: func(s *server, v func(string, map[string]any)) {
 			t0 := time.Now()
 			codes := mustCreate(s, 1)
+			// (a join counts as "while live" only if it was over well inside the lifetime: a loaded machine may be late)
 			c1, _, err := dialWS(wsURL(s, codes[0], "host", "sender"))
 			if err != nil {
-				v("join_with_live_code_rejected", map[string]any{"after_ms": time.Since(t0).Milliseconds()})
+				if time.Since(t0) < 1000*time.Millisecond {
+					v("join_with_live_code_rejected", map[string]any{"after_ms": time.Since(t0).Milliseconds()})
+				}
 				return
 			}
 			c2, _, err := dialWS(wsURL(s, codes[0], "early", "receiver"))
-			if err != nil && time.Since(t0) < 500*time.Millisecond {
+			if err != nil && time.Since(t0) < 1000*time.Millisecond {
 				v("join_with_live_code_rejected", map[string]any{"after_ms": time.Since(t0).Milliseconds()})
 			}
-			time.Sleep(900*time.Millisecond - time.Since(t0))
+			time.Sleep(2000*time.Millisecond - time.Since(t0))
 			if c, status, err := dialWS(wsURL(s, codes[0], "late", "receiver")); err == nil {
 				v("join_admitted_after_session_expired", map[string]any{"after_ms": time.Since(t0).Milliseconds()})
 				c.conn.Close()
@@ -731,12 +734,17 @@ func LimitsCheck(args []string) {
 				v("join_after_expiry_not_404", map[string]any{"status": status})
 			}
 			// connected peers of an expired session are disconnected
-			time.Sleep(100 * time.Millisecond)
 			for _, c := range []*wsClient{c1, c2} {
 				if c != nil {
-					c.mu.Lock()
-					dead := c.dead
-					c.mu.Unlock()
+					dead := false
+					for i := 0; i < 300 && !dead; i++ {
+						c.mu.Lock()
+						dead = c.dead
+						c.mu.Unlock()
+						if !dead {
+							time.Sleep(10 * time.Millisecond)
+						}
+					}
 					if !dead {
 						v("peers_of_expired_session_stay_connected", nil)
 					}
@@ -789,11 +797,13 @@ func LimitsCheck(args []string) {
 				return []byte(fmt.Sprintf(`{"v":1,"type":"app","msg_id":%q,"to":"b","payload":{"author":"a","pad":%q}}`, id, strings.Repeat("x", pad)))
 			}
 			a.conn.WriteMessage(websocket.TextMessage, mk(512, "fits"))
-			time.Sleep(100 * time.Millisecond)
 			got := false
-			for _, e := range b.snapshot() {
-				if e.MsgID == "fits" {
-					got = true
+			for i := 0; i < 300 && !got; i++ {
+				time.Sleep(10 * time.Millisecond)
+				for _, e := range b.snapshot() {
+					if e.MsgID == "fits" {
+						got = true
+					}
 				}
 			}
 			if !got {
@@ -820,11 +830,20 @@ func LimitsCheck(args []string) {
 			}
 			time.Sleep(200 * time.Millisecond)
 			el := time.Since(t0).Seconds()
-			n := 0
-			for _, e := range b.snapshot() {
-				if e.Type == "app" {
-					n++
+			count := func() int {
+				n := 0
+				for _, e := range b.snapshot() {
+					if e.Type == "app" {
+						n++
+					}
 				}
+				return n
+			}
+			n := count()
+			for i := 0; i < 300 && n < 10; i++ { // the burst must get through; give a loaded machine time to deliver it
+				time.Sleep(10 * time.Millisecond)
+				n = count()
+				el = time.Since(t0).Seconds()
 			}
 			if float64(n) > 10+5*el+1 {
 				v("more_messages_accepted_than_the_rate_allows", map[string]any{"delivered": n, "burst": 10, "rate": 5, "seconds": el})
@@ -1010,23 +1029,42 @@ func ConfigGrid(args []string) {
 					continue
 				}
 				// the server must know the peer under exactly the id the client meant
-				time.Sleep(30 * time.Millisecond)
+				// (wait for the messages themselves, not for a fixed time: a loaded machine delivers late)
 				var turnMsg *protocol.TurnCredentials
-				sawSelf := false
-				for _, e := range c.snapshot() {
-					switch e.Type {
-					case protocol.TypePeerList:
-						var pl protocol.PeerList
-						e.DecodePayload(&pl)
-						for _, p := range pl.Peers {
-							if p.PeerID == pid && p.Role == role {
-								sawSelf = true
+				sawSelf, sawList := false, false
+				for deadline := time.Now().Add(5 * time.Second); ; {
+					turnMsg, sawSelf, sawList = nil, false, false
+					for _, e := range c.snapshot() {
+						switch e.Type {
+						case protocol.TypePeerList:
+							var pl protocol.PeerList
+							e.DecodePayload(&pl)
+							sawList = true
+							for _, p := range pl.Peers {
+								if p.PeerID == pid && p.Role == role {
+									sawSelf = true
+								}
+							}
+						case protocol.TypeTurnCredentials:
+							var tc protocol.TurnCredentials
+							if e.DecodePayload(&tc) == nil {
+								turnMsg = &tc
 							}
 						}
-					case protocol.TypeTurnCredentials:
-						var tc protocol.TurnCredentials
-						if e.DecodePayload(&tc) == nil {
-							turnMsg = &tc
+					}
+					if (sawList && (r.Turn == "off" || turnMsg != nil)) || time.Now().After(deadline) {
+						break
+					}
+					time.Sleep(5 * time.Millisecond)
+				}
+				if r.Turn == "off" {
+					time.Sleep(20 * time.Millisecond) // room for a credentials message that must NOT come
+					for _, e := range c.snapshot() {
+						if e.Type == protocol.TypeTurnCredentials {
+							var tc protocol.TurnCredentials
+							if e.DecodePayload(&tc) == nil {
+								turnMsg = &tc
+							}
 						}
 					}
 				}
